@@ -117,9 +117,11 @@ def from_edge(edge: EdgeTemplate, return_dict: dict, base: str = 'EdgeTemplate')
 
 def add_to_dict(template, template_dict: dict, full_dict: dict):
 
-    temp_key = template.name
-    existing_labels = {key: 0 for key in full_dict.keys()}
-    if temp_key in full_dict and full_dict[temp_key] != template_dict:
-        temp_key, _ = get_unique_label(temp_key, existing_labels)
+    # the key is the template name; if that key is taken by a different definition, the first key <name>_num<k>
+    # that is free or already holds this very definition
+    temp_key, k = template.name, 0
+    while temp_key in full_dict and full_dict[temp_key] != template_dict:
+        k += 1
+        temp_key = f"{template.name}_num{k}"
     full_dict[temp_key] = template_dict
     return temp_key
